@@ -39,6 +39,7 @@ type family struct {
 var depths = []int{1000, 4000, 16000, 64000}
 var shallow = []int{250, 1000, 4000} // families whose cost is quadratic on the current tree: kept small
 var sizes = []int{1000, 4000, 16000, 64000, 256000, 1024000}
+var announced = []int{1 << 12, 1 << 16, 1 << 20, 1 << 24, 1 << 28}
 
 func rep(s string, n int) string { return strings.Repeat(s, n) }
 
@@ -88,6 +89,11 @@ var families = []family{
 	{"quoted-n", "fetch", "", func(n int) string {
 		return `* 1 FETCH (ENVELOPE (NIL "` + rep("s", n) + `" NIL NIL NIL NIL NIL NIL NIL NIL))` + "\r\n"
 	}, sizes},
+	// literals: the input grows by a digit or two while the ANNOUNCED size grows 16x (the octets never arrive)
+	{"literal-announce-list", "list", "", func(n int) string { return `* LIST () "/" {` + strconv.Itoa(n) + "}\r\nabc" }, announced},
+	{"literal-announce-envelope", "fetch", "", func(n int) string { return "* 1 FETCH (ENVELOPE (NIL {" + strconv.Itoa(n) + "}\r\nabc" }, announced},
+	{"literal-announce-body", "fetch", "", func(n int) string { return "* 1 FETCH (BODY[] {" + strconv.Itoa(n) + "}\r\nabc" }, announced},
+	{"literal-announce-status", "status", "", func(n int) string { return "* STATUS {" + strconv.Itoa(n) + "}\r\nabc" }, announced},
 	// sets: the input grows by one digit while the range grows 4x
 	{"esearch-range", "uidesearch", "enum", func(n int) string { return `* ESEARCH (TAG "T1") UID ALL 1:` + strconv.Itoa(n) + "\r\n" }, sizes},
 	{"esearch-range-noenum", "uidesearch", "", func(n int) string { return `* ESEARCH (TAG "T1") UID ALL 1:` + strconv.Itoa(n) + "\r\n" }, sizes},
